@@ -10,7 +10,9 @@ import (
 	"runtime/debug"
 	"strings"
 
+	"github.com/bytedance/sonic"
 	"github.com/bytedance/sonic/internal/simrt"
+	"github.com/bytedance/sonic/option"
 )
 
 // C10: runtime events (GC, stack growth / shrink = stack move, traceback,
@@ -304,6 +306,19 @@ func runC10(c *Ctx) Result {
 		default:
 			types[i] = z.Struct(0)
 		}
+	}
+	// in a third of the runs the programs are compiled ahead of time: Pretouch loads a type's
+	// program and those of its nested types as ONE runtime module with many functions
+	// (LoadMany: shared name table, pc tables and lookup buckets) instead of one module each
+	pretouched := t.Draw(simrt.Knobs, 3) == 0
+	if pretouched {
+		opts := []option.CompileOption{option.WithCompileRecursiveDepth(1 + t.Draw(simrt.Knobs, 4)), option.WithCompileMaxInlineDepth(1 + t.Draw(simrt.Knobs, 3))}
+		for _, ty := range types {
+			if err := sonic.Pretouch(ty, opts...); err != nil {
+				c.inc("pretouch_errors")
+			}
+		}
+		c.inc("runs_with_batch_loaded_programs")
 	}
 	nRounds := 2 + g.d(6)
 	var typeS []string
